@@ -71,6 +71,9 @@ def main():
         for act in ("GenStep", "LevelDone", "Finish"):
             if res["coverage"].get(act, (0, 0))[1] == 0:
                 raise MachineryFailure("vacuous: action %s never taken" % act)
+        # deep hierarchies (indices with two digits)
+        ck.tlc("Hierarchy", "Hierarchy_deep.cfg", workers=2,
+               env={"TABLE_DIR": tmp}, timeout=1500)
         tables = {}
         for f in os.listdir(tmp):
             if f.startswith("h_"):
